@@ -84,9 +84,9 @@ Proof.
   rewrite (tcount_stable s s1 I S1 E1), (st_tm _ _ S1). exact T.
 Qed.
 
-Lemma wp_in_head_template_start s t :
+Lemma wp_in_head_template_start_strong s t :
   TInv s -> late s -> saving_mode (mode s) = false -> tname t = nm "template" ->
-  wp (in_head_template_start t) (fun r s' => TInv s' /\ r = Done) s.
+  wp (in_head_template_start t) (fun r s' => (TInv s' /\ r = Done) /\ head_elem s' = head_elem s /\ late s') s.
 Proof.
   intros I L NS N. unfold tname in N. unfold in_head_template_start. rewrite wp_bind.
   eapply (wp_push_marker s); [apply keeps_refl; exact I|]. intros s1 K1 E1.
@@ -110,10 +110,14 @@ Proof.
   assert (T4 : tcount s4 + 1 <= length (template_modes s4)).
   { rewrite (tcount_stable s3 s4 I3 S4 E4), (st_tm _ _ S4). exact T3. }
   rewrite wp_bind.
-  assert (Plain : forall s5, TInv s5 -> late s5 -> tcount s5 + 1 <= length (template_modes s5) ->
-            wp (_e <- insert_element_for (tk_tag t) ;; ret tt) (fun _ s' => wp (ret Done) (fun r s'' => TInv s'' /\ r = Done) s') s5).
-  { intros s5 I5 L5 T5. rewrite wp_bind. apply wp_insert_template; [exact I5 | exact L5 | exact N | exact T5 |].
-    intros h s6 K6. rewrite wp_ret, wp_ret. split; [exact (keeps_TInv _ _ K6) | reflexivity]. }
+  assert (H4 : head_elem s4 = head_elem s).
+  { rewrite (st_head _ _ S4). unfold s3, s2. cbn [head_elem set_template_modes set_mode set_frameset_ok]. apply (st_head _ _ S1). }
+  assert (Plain : forall s5, TInv s5 -> late s5 -> tcount s5 + 1 <= length (template_modes s5) -> head_elem s5 = head_elem s ->
+            wp (_e <- insert_element_for (tk_tag t) ;; ret tt)
+               (fun _ s' => wp (ret Done) (fun r s'' => (TInv s'' /\ r = Done) /\ head_elem s'' = head_elem s /\ late s'') s') s5).
+  { intros s5 I5 L5 T5 H5. rewrite wp_bind. apply wp_insert_template; [exact I5 | exact L5 | exact N | exact T5 |].
+    intros h s6 K6. rewrite wp_ret, wp_ret. pose proof K6 as [_ S6].
+    split; [split; [exact (keeps_TInv _ _ K6) | reflexivity] | split; [rewrite (st_head _ _ S6); exact H5 | eapply keeps_late; eassumption]]. }
   destruct b; [|apply Plain; assumption].
   rewrite wp_bind. apply wp_probe. rewrite wp_bind, wp_get, wp_bind, wp_unwrap.
   set (s5 := set_out _ s4).
@@ -148,7 +152,8 @@ Proof.
     + unfold s8. cbn [open_elems set_open_elems]. unfold vpush. rewrite app_length. cbn [List.length].
       destruct (TInv_stack_nonempty _ I7 L7) as (r & rest & Er & _). rewrite Er. cbn [List.length]. lia.
     + intros e s9 K9 _ E9 _. pose proof K9 as [I9 S9].
-      apply Plain; [exact I9 | eapply keeps_late; [exact K9 | exact L8] |].
+      apply Plain; [exact I9 | eapply keeps_late; [exact K9 | exact L8] | |].
+      2:{ rewrite (st_head _ _ S9). unfold s8. cbn [head_elem set_open_elems]. rewrite (st_head _ _ S7). exact H4. }
       (* the stack is back to that of s7 *)
       assert (E9' : open_elems s9 = open_elems s7).
       { rewrite E9. unfold s8. cbn [open_elems set_open_elems]. unfold vpush. rewrite app_length. cbn [List.length].
@@ -159,8 +164,15 @@ Proof.
       rewrite (tcount_stable s7 s9 I7 S79 E9'), (st_tm _ _ S79).
       assert (E7 : open_elems s7 = open_elems s5) by (cbn; exact E6).
       rewrite (tcount_stable s5 s7 I5 S7 E7), (st_tm _ _ S7). exact T4.
-  - rewrite wp_ret, wp_ret. split; [exact I8 | reflexivity].
+  - rewrite wp_ret, wp_ret. split; [split; [exact I8 | reflexivity] | split; [|exact L8]].
+    unfold s8. cbn [head_elem set_open_elems]. rewrite (st_head _ _ S7). exact H4.
 Qed.
+
+Lemma wp_in_head_template_start s t :
+  TInv s -> late s -> saving_mode (mode s) = false -> tname t = nm "template" ->
+  wp (in_head_template_start t) (fun r s' => TInv s' /\ r = Done) s.
+Proof. intros. eapply wp_mono; [apply wp_in_head_template_start_strong; assumption | intros r s' [A _]; exact A]. Qed.
+
 
 Lemma tcount_as_of s s' : TInv s -> stable s s' -> Forall (known s) (open_elems s') -> tcount s' = tcount_of s (open_elems s').
 Proof.
@@ -356,4 +368,73 @@ Proof.
     intros r s' [Is ->]. apply Fin2; [exact Is | exact (head_tag_not_chars _ _ F11 Hm) | left; reflexivity].
   - (* 12 *) eapply wp_mono; [apply armd_unexpected; assumption | exact Fin].
   - (* 13 *) apply AE. simpl; auto.
+Qed.
+
+(* the arms that other modes reach with the head element pushed back on the stack (AfterHead) leave the head
+   pointer alone and end in a late mode *)
+Lemma step_in_head_gen_head_kept (in_body : body) s t :
+  TInv s -> late s -> saving_mode (mode s) = false -> scalar_tok t ->
+  In (first_match heads_in_head t) [4; 5; 6; 7; 10] ->
+  wp (step_in_head_gen in_body t) (fun _ s' => head_elem s' = head_elem s /\ late s') s.
+Proof.
+  intros I L NS Sc Hk. unfold step_in_head_gen.
+  apply wp_arm_dispatch; [apply total_in_head | apply (aligned_all in_body b_done b_done) |].
+  intros k b Ek Eb Hm Hn. rewrite Ek in Hk.
+  pose proof (TInv_arm s (mode_id InHead) k I) as I1. set (s1 := set_out _ s) in *.
+  assert (L1 : late s1) by exact L. assert (NS1 : saving_mode (mode s1) = false) by exact NS.
+  assert (K1 : keeps s1 s1) by (apply keeps_refl; exact I1).
+  assert (H1 : head_elem s1 = head_elem s) by reflexivity.
+  destruct in_head_arm_facts as (F3 & F4 & F5 & F6 & F7 & F8 & F9 & F10 & F11 & F12 & F0 & F1 & F2).
+  assert (Kp : forall s', keeps s1 s' -> head_elem s' = head_elem s /\ late s').
+  { intros s' K'. pose proof K' as [_ S']. split; [rewrite (st_head _ _ S'); exact H1 | eapply keeps_late; eassumption]. }
+  assert (Tx : forall s', text_entered s1 s' -> head_elem s' = head_elem s /\ late s').
+  { intros s' (Em & _ & _ & Eh & _). split; [rewrite Eh; exact H1 | unfold late; rewrite Em; reflexivity]. }
+  arm_cases k Eb; try (exfalso; simpl in Hk; intuition discriminate).
+  - (* 4 *)
+    destruct (head_safe _ _ F4 Hm) as (g & -> & N0 & N1 & N2). cbn [tk_tag]. rewrite wp_bind. unfold insert_and_pop_element_for.
+    eapply (wp_insert_element_std s1); [exact K1 | exact L1 | exact N1 | exact N2 |].
+    intros h s2 K2 _ _ _ _. rewrite wp_bind, wp_get.
+    destruct (dev_on s2 7 || is_n (tname (KTag g)) "meta").
+    + eapply (wp_meta_like_result s1); [exact K2 | exact Sc |]. intros r s3 K3 _. apply Kp. exact K3.
+    + rewrite wp_ret. apply Kp. exact K2.
+  - (* 5 *)
+    destruct (head_safe _ _ F5 Hm) as (g & -> & N0 & N1 & N2). cbn [tk_tag].
+    eapply (wp_parse_raw_data s1); [exact K1 | exact L1 | exact NS1 | exact N1 | exact N2 |].
+    intros s' _ T'. apply Tx. exact T'.
+  - (* 6 *)
+    destruct (head_safe _ _ F6 Hm) as (g & -> & N0 & N1 & N2). cbn [tk_tag]. rewrite wp_bind, wp_get.
+    destruct (negb (o_scripting (opts s1)) && is_n (tname (KTag g)) "noscript").
+    + rewrite wp_bind. unfold insert_element_for.
+      eapply (wp_insert_element_std s1); [exact K1 | exact L1 | exact N1 | exact N2 |].
+      intros h s2 K2 _ _ _ _. unfold set_mode_m. rewrite wp_bind, wp_modify, wp_ret.
+      destruct (Kp _ K2) as [A _]. split; [exact A | reflexivity].
+    + eapply (wp_parse_raw_data s1); [exact K1 | exact L1 | exact NS1 | exact N1 | exact N2 |].
+      intros s' _ T'. apply Tx. exact T'.
+  - (* 7 *)
+    destruct (head_all_tag _ _ F7 Hm) as [g ->]. cbn [tk_tag]. rewrite wp_bind. unfold wp at 1. rewrite sink_create_element_eq.
+    set (h := next_handle s1). set (s2 := new_elem_state _ _ _ s1).
+    assert (K2 : keeps s1 s2) by (apply new_elem_keeps; exact K1).
+    assert (Kn : known s2 h) by apply new_elem_known.
+    assert (En : ename_of s2 h = (ns_html, nm "script")) by apply new_elem_name.
+    rewrite wp_bind, wp_get, wp_bind.
+    assert (Rest : forall s3, keeps s2 s3 -> wp (insert_appropriately (inl h) None ;; push h ;; to_raw_text_mode ScriptData)
+                    (fun _ s' => head_elem s' = head_elem s /\ late s') s3).
+    { intros s3 K3. rewrite wp_bind.
+      eapply (wp_insert_appropriately s2); [exact K3 | eapply keeps_late; [exact K3 | exact L1] |].
+      intros s4 K4 _. rewrite wp_bind. unfold push. rewrite wp_modify.
+      pose proof K4 as [I4 S4].
+      assert (K5 : keeps s2 (set_open_elems (vpush (open_elems s4) h) s4)).
+      { apply keeps_push; [exact K4 | eapply keeps_late; [exact K4 | exact L1] | eapply stable_known; eassumption | |];
+          rewrite (stable_ename _ _ _ S4 Kn), En; discriminate. }
+      pose proof K5 as [I5 S5].
+      apply wp_to_raw_text_mode; [exact I5 | eapply keeps_late; [exact K5 | exact L1] | rewrite (st_mode _ _ S5); exact NS1 |].
+      intros s' _ (Em & _ & _ & Eh & _). split; [|unfold late; rewrite Em; reflexivity].
+      rewrite Eh, (st_head _ _ S5). pose proof K2 as [_ S2]. rewrite (st_head _ _ S2). exact H1. }
+    destruct (is_fragment s2).
+    + rewrite wp_emit. apply Rest. apply keeps_set_out. apply keeps_refl. exact (keeps_TInv _ _ K2).
+    + rewrite wp_ret. apply Rest. apply keeps_refl. exact (keeps_TInv _ _ K2).
+  - (* 10 *)
+    destruct (head_named_prop _ _ _ F10 Hm) as (g & -> & Nt). apply is_n_eq in Nt.
+    eapply wp_mono; [apply wp_in_head_template_start_strong; [exact I1 | exact L1 | exact NS1 | exact Nt]|].
+    intros r s' [_ [A B]]. split; [rewrite A; exact H1 | exact B].
 Qed.
